@@ -26,6 +26,20 @@ mod c19;
 mod c20;
 
 fn main() {
+    // an optimised build inlines the per-size instantiations of a group into one frame (tens of
+    // megabytes for the big-array cases): run the group on a thread with a large stack
+    #[cfg(not(miri))]
+    {
+        let t = std::thread::Builder::new().stack_size(1 << 30).spawn(real_main).unwrap();
+        if t.join().is_err() {
+            std::process::exit(101);
+        }
+    }
+    #[cfg(miri)]
+    real_main();
+}
+
+fn real_main() {
     let a: Vec<String> = std::env::args().collect();
     if a.len() < 4 {
         eprintln!("usage: kv_harness <group> <quick|thorough> <seed>");
